@@ -211,7 +211,7 @@ func baseConfig() *factory.Config {
 			AbmfDiameter:        &factory.Diameter{Protocol: "tcp", HostIPv4: "127.0.0.1", Port: abmfPort, Tls: &factory.Tls{Pem: certPem, Key: certKey}},
 			Cgf:                 &factory.Cgf{Enable: false, HostIPv4: "127.0.0.1", Port: 2121, ListenPort: 2122},
 		},
-		Logger: &factory.Logger{Enable: false, Level: "error"},
+		Logger: &factory.Logger{Enable: os.Getenv("VERIF_LOG") != "", Level: "error"},
 	}
 }
 
@@ -231,7 +231,11 @@ func waitPort(p int) {
 // account-balance servers (pkg/rf, pkg/abmf OpenServer) on loopback TLS.
 func startEnv() {
 	envOnce.Do(func() {
-		logger.Log.SetOutput(io.Discard)
+		if os.Getenv("VERIF_LOG") == "" {
+			logger.Log.SetOutput(io.Discard)
+		} else {
+			logger.Log.SetOutput(os.Stderr)
+		}
 		d, err := os.MkdirTemp("", "verif-env-")
 		if err != nil {
 			panic(err)
